@@ -253,6 +253,18 @@ pub mod ndt {
         { unimplemented!() }
     }
 
+    /// shape of a 3-d view of any element type
+    pub uninterp spec fn vdim3<'a, T>(a: ArrayView3<'a, T>) -> (int, int, int);
+    impl<'a, T> ArrayView3<'a, T> {
+        /// `mapv(f)`: f applied to every element (by value); the result has the same shape
+        #[verifier::external_body]
+        pub fn mapv<F: Fn(T) -> Fl>(&self, f: F) -> (r: Array3<Fl>)
+            requires forall |i: int, j: int, k: int| 0 <= i < vdim3(*self).0 && 0 <= j < vdim3(*self).1 && 0 <= k < vdim3(*self).2 ==> f.requires((#[trigger] v3(*self)[i][j][k],))
+            ensures odim3(r) == vdim3(*self), rect3(a3(r), vdim3(*self).0, vdim3(*self).1, vdim3(*self).2),
+                forall |i: int, j: int, k: int| 0 <= i < vdim3(*self).0 && 0 <= j < vdim3(*self).1 && 0 <= k < vdim3(*self).2 ==> f.ensures((v3(*self)[i][j][k],), #[trigger] a3(r)[i][j][k])
+        { unimplemented!() }
+    }
+
     // ---- rows(), index_axis, ne, Zip::fold ------------------------------------------------
     /// float array equality as `PartialEq` computes it: same shape and every pair of elements `==` (NaN != NaN)
     pub open spec fn arr_eq(a: Seq<Fl>, b: Seq<Fl>) -> bool { a.len() == b.len() && forall |i: int| 0 <= i < a.len() ==> xr_eq(val(#[trigger] a[i]), val(b[i])) }
